@@ -339,6 +339,11 @@ func term(v ssa.Value, depth int) string {
 	case *ssa.BinOp:
 		return "(" + term(x.X, depth+1) + x.Op.String() + term(x.Y, depth+1) + ")"
 	case *ssa.Alloc:
+		// the spill cell of an address-taken (struct-valued) parameter stands for
+		// the parameter, so that ParamSubst relates it to the caller's argument
+		if p := spillOfParam(x); p != nil {
+			return "&(" + term(p, depth+1) + ")"
+		}
 		return fmt.Sprintf("alloc(%s@%d)", x.Comment, x.Pos())
 	case *ssa.Phi:
 		return fmt.Sprintf("phi(%s@%s)", x.Comment, localName(x))
@@ -358,6 +363,37 @@ func term(v ssa.Value, depth int) string {
 		return "assert(" + term(x.X, depth+1) + ")"
 	}
 	return fmt.Sprintf("%T(%s)", v, localName(v))
+}
+
+// spillOfParam: al is the cell a parameter is copied into on entry and is
+// never written again (neither as a whole nor field by field).
+func spillOfParam(al *ssa.Alloc) *ssa.Parameter {
+	if al.Referrers() == nil {
+		return nil
+	}
+	var p *ssa.Parameter
+	for _, ref := range *al.Referrers() {
+		switch r := ref.(type) {
+		case *ssa.Store:
+			if r.Addr != ssa.Value(al) {
+				continue
+			}
+			q, ok := r.Val.(*ssa.Parameter)
+			if !ok || p != nil {
+				return nil
+			}
+			p = q
+		case *ssa.FieldAddr:
+			if r.Referrers() != nil {
+				for _, rr := range *r.Referrers() {
+					if st, ok := rr.(*ssa.Store); ok && st.Addr == ssa.Value(r) {
+						return nil
+					}
+				}
+			}
+		}
+	}
+	return p
 }
 
 // localName: a function-qualified register name (terms of different functions
